@@ -397,6 +397,7 @@ type clientTask struct{ x *run }
 func (c *clientTask) RunEvent(time.Time) {
 	x, k, sc := c.x, c.x.k, c.x.sc
 	defer func() {
+		k.Announce()
 		k.Lock()
 		x.cliFin = true
 		k.Unlock()
